@@ -412,6 +412,19 @@ func genC11(g *Gen) {
 		}
 		g.Emit("c11", []string{"int"}, ops)
 	}
+	// (0a) skewed long inputs: one value occurs 255 .. 2s+1 times (narrow counters, count thresholds)
+	for li, c := range skewLens(g.Thorough()) {
+		if !g.Mine() {
+			continue
+		}
+		a, b := ints(skewSlice(c, li)), ints([]int{8, 3, 3, 21})
+		ops := []string{"dup " + a, "dupidx " + a, "unique " + a, "inter [" + a + "," + b + "]", "inter [" + b + "," + a + "]",
+			"without " + a + " [0,-4]", "diff " + a + " " + b, "diff " + b + " " + a, "union [" + a + ",[" + b + "]]"}
+		for _, f := range intFns {
+			ops = append(ops, "uniqueby "+f+" "+a, "interby "+f+" ["+a+","+b+"]", "diffby "+f+" "+a+" "+b)
+		}
+		g.Emit("c11", []string{"int"}, ops)
+	}
 	// (0b) Union on typed leaves that share one backing array (memory layout must not matter)
 	if g.Mine() {
 		var ops []string
